@@ -14,7 +14,12 @@ import (
 )
 
 // errAliases: values that may hold the error produced at call site s (through cells, phis, conversions).
-func errAliases(s Site) map[ssa.Value]bool {
+func errAliases(s Site) map[ssa.Value]bool { return errAliasesMode(s, false) }
+
+// errAliasesMode: with strict set, a phi is an alias only when a test of it speaks about the call on every way in
+// (phiCarriesOnly); that is what a must-pass rule needs ("the success edge of A"). Without it every merge that takes the
+// error is an alias, which is the right reading for "where may this error be looked at" (failure edges, classification).
+func errAliasesMode(s Site, strict bool) map[ssa.Value]bool {
 	c := s.Call()
 	if c == nil {
 		return nil
@@ -73,7 +78,7 @@ func errAliases(s Site) map[ssa.Value]bool {
 					}
 				}
 			case *ssa.Phi:
-				if phiCarriesOnly(x, al, s) {
+				if !strict || phiCarriesOnly(x, al, s) {
 					add(x)
 				} else {
 					deferred = append(deferred, x)
@@ -128,13 +133,16 @@ func phiCarriesOnly(ph *ssa.Phi, al map[ssa.Value]bool, s Site) bool {
 
 // errorEdges returns the CFG edges taken when the error of call site s is nil (success) / non-nil (failure).
 func errorEdges(s Site) (succ, fail []Edge) {
-	al := errAliases(s)
+	al := errAliasesMode(s, false)
 	if len(al) == 0 {
 		return
 	}
+	strict := errAliasesMode(s, true)
 	for _, b := range liveBlocks(s.Fn) {
 		if v, nilS, nonNilS, ok := nilTest(b); ok && al[v] {
-			succ = append(succ, Edge{b, nilS})
+			if strict[v] {
+				succ = append(succ, Edge{b, nilS})
+			}
 			fail = append(fail, Edge{b, nonNilS})
 		}
 	}
